@@ -130,11 +130,25 @@ def eval_save(state, arg):
             if any(t[0] != 0 for t in before[1]) or before[0][0] != 0:
                 res["features"].append("unreadable")
                 return res
-            reader = DocxReader(src, html=html)
-            try:
-                reader.save(out1)
-            finally:
-                reader.close()
+            if rng.random() < 0.4:
+                # the usual route: an extraction object whose attributes have been read (comments, core
+                # properties, text: this parses non-content parts too) and whose reader is then saved -
+                # nothing was edited, so every non-content member must still be copied byte for byte
+                # (round-7 seed C16-loaded-noncontent-parts-rewritten)
+                from docx2python import docx2python
+                res["features"].append("read_before_save")
+                dd = docx2python(src, html=html)
+                try:
+                    _ = (dd.comments, dd.core_properties, dd.text)
+                    dd.docx_reader.save(out1)
+                finally:
+                    dd.close()
+            else:
+                reader = DocxReader(src, html=html)
+                try:
+                    reader.save(out1)
+                finally:
+                    reader.close()
             saved = open(out1, "rb").read()
             in_members = zip_members(data)
             out_members = zip_members(saved)
@@ -321,7 +335,8 @@ def eval_replace(state, arg):
                         old = s[i:j]
                 else:
                     old = rng.choice(["zzzz", "not there", "@@"])
-                new = rng.choice(["", "X", "new text", "a\nb", "1\n2\n3", "<&>", old + old, "é"])
+                new = rng.choice(["", "X", "new text", "a\nb", "1\n2\n3", "<&>", old + old, "é",
+                                  "C:\\dir\\1", "\\g<0>\\n"])   # literal backslashes: the replacement is text, not a template
                 if all_st and rng.random() < 0.3:
                     # a short needle that occurs in SEVERAL text nodes (often of one merged run, with a
                     # tab or break between them), replaced by several lines: each hit turns into several
